@@ -8,7 +8,8 @@ C17Configs == { [phase |-> 0, fabric |-> 0, regime |-> 4, n |-> 5],
                 [phase |-> 0, fabric |-> 3, regime |-> 6, n |-> 5],
                 [phase |-> 0, fabric |-> 2, regime |-> 1, n |-> 3],
                 [phase |-> 0, fabric |-> 4, regime |-> 7, n |-> 4],
-                [phase |-> 0, fabric |-> 1, regime |-> 2, n |-> 6] }   \* unsupported regime still saves
+                [phase |-> 0, fabric |-> 1, regime |-> 2, n |-> 6],    \* unsupported regime still saves
+                [phase |-> 0, fabric |-> 0, regime |-> 0, n |-> 2] }   \* every ordinal zero ("falsy" metadata)
 C17Pars == { [M |-> 125, chi |-> 3, asm |-> <<0, 1>>, phiOl |-> 7, x |-> <<5, 0>>] }
 \* construction and a few updates, then persistence only
 Grow(m) == \/ \E c \in Configs, s \in Seeds, tx \in Textures : Create(m, c, s, tx, InitO(s, c.n, tx), InitF(c.n, tx))
@@ -17,4 +18,25 @@ Grow(m) == \/ \E c \in Configs, s \in Seeds, tx \in Textures : Create(m, c, s, t
                                                                NextF(Last(hist[m]), cfg[m], cfg[m].regime, fl, par))
 C17Next == \E m \in Minerals : Grow(m) \/ DiskNext(m) \/ LoadBadName(m)
 C17Spec == Init /\ [][C17Next]_vars
+\* ---- exhaustive enumeration for replay: three pre-built minerals with distinct configurations,
+\* every order of three postfix saves (postfixes where one is a string prefix of another), then one
+\* recovery through either loader.  The call log is part of the state: every behaviour is emitted.
+CONSTANT FixedSavers     \* TRUE: the k-th save is of the k-th mineral (quick); FALSE: any mineral
+eA == [phase |-> 0, fabric |-> 0, regime |-> 0, n |-> 2]
+eB == [phase |-> 1, fabric |-> 5, regime |-> 4, n |-> 3]
+eC == [phase |-> 0, fabric |-> 3, regime |-> 6, n |-> 4]
+ECfg(m) == IF m = "a" THEN eA ELSE IF m = "b" THEN eB ELSE eC
+Built == {"a", "b", "c"}
+EnumInit == /\ cfg = [m \in Minerals |-> IF m \in Built THEN ECfg(m) ELSE NULL]
+            /\ hist = [m \in Minerals |-> IF m \in Built THEN << [o |-> InitO(7, ECfg(m).n, "random"), f |-> InitF(ECfg(m).n, "random")] >> ELSE <<>>]
+            /\ nUpd = [m \in Minerals |-> 0] /\ Fm = [m \in Minerals |-> <<>>]
+            /\ disk = [f \in Files |-> <<>>] /\ err = "None" /\ ops = 0
+            /\ log = << [a |-> "Create", m |-> "a", c |-> eA, seed |-> 7, tex |-> "random"],
+                        [a |-> "Create", m |-> "b", c |-> eB, seed |-> 7, tex |-> "random"],
+                        [a |-> "Create", m |-> "c", c |-> eC, seed |-> 7, tex |-> "random"] >>
+KthSaver == <<"a", "b", "c">>
+EnumNext == \/ ops < 3 /\ \E m \in Built, pf \in Postfixes :
+                  (FixedSavers => m = KthSaver[ops + 1]) /\ SavePostfix(m, "f1", pf)
+            \/ ops = 3 /\ \E k \in Keys("f1") : (\E m \in Built : Load(m, "f1", k)) \/ FromFile("d", "f1", k)
+EnumSpec == EnumInit /\ [][EnumNext]_vars
 ====
